@@ -35,7 +35,7 @@ LEAN_MODULES = ['ThermoVerif.Props.C02']
 RULE = ('60 % single-mix cases, 40 % histories (3–6 further operations on ONE receiver: mix again with the receiver among the '
         'inlets, assign H / h / S, separate a share — each step judged by the oracles); flags vle=True 14 %, energy_balance=False 14 %; '
         'MultiStream receivers / inlets over gl, ls, gs, gls, lL, glL and single-phase L streams (conserve_phases 50 % when one is present); '
-        '9 % shared-state histories (a MultiStream separated from its own phase view; a stream and its proxy taken there and back; two properties read, a composition-only edit, one re-read, the other used); 6 % gas-phase histories in a Peng-Robinson (equation-of-state) property package; 7 % of cases with trace flows (1e-9..1e-8 kmol/hr in all, non-empty); cases of 1–5 inlets (single-phase l/g streams, two-phase MultiStreams, empty streams, Heat/Power objects, None), '
+        '11 % shared-state histories (a MultiStream separated from its own phase view; a stream and its proxy taken there and back; a stream and its copy / flow proxy / copy_like twin going separate ways; two properties read, a composition-only edit, one re-read, the other used); 6 % gas-phase histories in a Peng-Robinson (equation-of-state) property package; 7 % of cases with trace flows (1e-9..1e-8 kmol/hr in all, non-empty); cases of 1–5 inlets (single-phase l/g streams, two-phase MultiStreams, empty streams, Heat/Power objects, None), '
         'T 250–500 K, P 1e4–1e7 Pa (log-uniform), 5 chemicals with random flows; receiver fresh / multi-phase / one of the inlets; '
         'Q = ΔT·ΣC with ΔT ∈ ±40 K, 0, or huge (fallback branches); conserve_phases 10 %; then separate_out of a sub-stream '
         '(equal shares of {exactly the parent\'s T, another T} x {same phase, opposite phase}; 15 % at another pressure) and '
@@ -405,6 +405,17 @@ def run_ops(ops):
         elif op == 'proxy':
             a = objs[int(t[1])]
             objs.append(a.proxy() if is_stream(a) else None)          # a second handle on the same flows and T, P
+        elif op == 'copy':
+            a = objs[int(t[1])]
+            objs.append(a.copy() if is_stream(a) else None)           # an independent stream in the same state
+        elif op == 'flowproxy':
+            a = objs[int(t[1])]
+            objs.append(a.flow_proxy() if is_stream(a) else None)     # shares the flows, has its own T and P
+        elif op == 'copylike':
+            b, a = objs[int(t[1])], objs[int(t[2])]
+            if is_stream(a) and is_stream(b):
+                try: b.copy_like(a)
+                except Exception: tags.add('copylike-raised')
         elif op == 'view':
             a = objs[int(t[1])]
             objs.append(a[t[2]] if is_multi(a) and t[2] in a.phases else None)      # the phase view parent['g'] / parent['l']
@@ -927,14 +938,14 @@ def ops_kind(ops, index):
     k = -1
     for o in ops:
         w = o.split(' ')[0]
-        if w in ('S', 'M', 'MP', 'Q', 'W', 'N', 'sub', 'sum', 'add', 'radd', 'proxy', 'view'):
+        if w in ('S', 'M', 'MP', 'Q', 'W', 'N', 'sub', 'sum', 'add', 'radd', 'proxy', 'view', 'copy', 'flowproxy'):
             k += 1
             if k == index: return w
     return None
 
 
 def nobj(ops):
-    return sum(1 for o in ops if o.split(' ')[0] in ('S', 'M', 'MP', 'Q', 'W', 'N', 'sub', 'sum', 'add', 'radd', 'proxy', 'view'))
+    return sum(1 for o in ops if o.split(' ')[0] in ('S', 'M', 'MP', 'Q', 'W', 'N', 'sub', 'sum', 'add', 'radd', 'proxy', 'view', 'copy', 'flowproxy'))
 
 
 def gen_stream(rng, ops, empty=None, trace=False):
@@ -1009,7 +1020,45 @@ def gen_alias_history(rng):
             b = add_obj(ops, f'sub {a} {fr} {r6(rng.uniform(-20, 20))} same 1.0')
             ops.append(f'sep {a} {b}')
         return Case(ops, {'history': True})
-    if r0 < 0.67:
+    if r0 < 0.55:
+        # (d) a stream and its copy (or flow proxy, or a stream made equal with copy_like): they are independent from then
+        # on — one is changed (T, a flow, an H or S assignment) and read, the other, unchanged, is then read / used as an
+        # inlet / separated / re-assigned its own value, and both may be mixed together
+        multi = rng.random() < 0.25
+        a = (add_obj(ops, f'M {gen_T(rng)} {gen_P(rng)} {gen_flows(rng)}|{gen_flows(rng)}') if multi
+             else add_obj(ops, f'S {rng.choice("lg")} {gen_T(rng)} {gen_P(rng)} {gen_flows(rng)}'))
+        other = gen_stream(rng, ops, empty=False)
+        recv = add_obj(ops, f'S {rng.choice("lg")} 298.15 101325.0 {gen_flows(rng, True)}')
+        X = rng.choice(['H', 'H', 'S', 'C'])
+        if rng.random() < 0.8: ops.append(f'rd {a} {X}')
+        r = rng.random()
+        if r < 0.7: c = add_obj(ops, f'copy {a}')
+        elif r < 0.85: c = add_obj(ops, f'flowproxy {a}')
+        else:
+            c = add_obj(ops, f'S l 298.15 101325.0 {gen_flows(rng, True)}' if not multi else f'M 298.15 101325.0 {gen_flows(rng, True)}|{gen_flows(rng, True)}')
+            ops.append(f'copylike {c} {a}')
+        changed, kept = (c, a) if rng.random() < 0.6 else (a, c)
+        r = rng.random()
+        if r < 0.4: ops.append(f'T {changed} {gen_T(rng)}')
+        elif r < 0.7: ops.append(f'set {changed} {rng.choice(["H", "S"])} lerp {r6(rng.uniform(0.1, 0.9))}')
+        elif r < 0.85 and not ops[-1].startswith('flowproxy'):
+            ops.append(f'flow {changed} {rng.randrange(len(CHEMS))} {r6(rng.uniform(0.5, 60))}' + (f' {rng.choice("gl")}' if multi else ''))
+        else: ops.append(f'T {changed} {gen_T(rng)}')
+        ops.append(f'rd {changed} {X if rng.random() < 0.8 else "H"}')
+        r = rng.random()
+        if r < 0.25:
+            ops.append(f'set {kept} {X if X in ("H", "S") else "H"} cur 0')
+        elif r < 0.65:
+            mode, q = gen_Q(rng, sane=True)
+            ops.append(f'mix {recv} {kept},{other}' + (f',{changed}' if rng.random() < 0.4 else '') + f' {mode} {q} 0')
+        elif r < 0.85 or multi:
+            add_obj(ops, f'sum {kept},{other}')
+        else:
+            fr = ','.join(r6(rng.uniform(0, 0.6)) for _ in CHEMS)
+            b = add_obj(ops, f'sub {kept} {fr} {r6(rng.uniform(-20, 20))} same 1.0')
+            ops.append(f'sep {kept} {b}')
+        return Case(ops, {'history': True})
+    if r0 < 0.78:
         T = gen_T(rng)
         a = add_obj(ops, f'M {T} {gen_P(rng)} {gen_flows(rng)}|{gen_flows(rng)}')
         if rng.random() < 0.5: ops.append(f'rd {a} H')
@@ -1220,7 +1269,7 @@ def generate(rng, tier, index, nworkers):
     n = max(1, budget(tier)['cases'] // nworkers)
     for _ in range(n):
         r = rng.random()
-        yield gen_pr_history(rng) if r < 0.06 else gen_alias_history(rng) if r < 0.15 else gen_history(rng) if r < 0.46 else gen_case(rng)
+        yield gen_pr_history(rng) if r < 0.06 else gen_alias_history(rng) if r < 0.17 else gen_history(rng) if r < 0.47 else gen_case(rng)
 
 
 def corpus():
